@@ -14,7 +14,7 @@ def tie_groups(rng, items, p_tie=0.35):
 
 
 def gen_ast(rng, na=None, S=None, P=None, L=None, two_sided_lists=True, maxS=5, maxP=4, maxL=3,
-            zero_caps=True, lower=True, empty_lists=True, force_pairs=()):
+            zero_caps=True, lower=True, empty_lists=True, force_pairs=(), superfluous=False):
     na = na or rng.choice([2, 3])
     S = S or rng.randint(1, maxS)
     P = P or rng.randint(1, maxP)
@@ -65,6 +65,12 @@ def gen_ast(rng, na=None, S=None, P=None, L=None, two_sided_lists=True, maxS=5, 
                 tg = uq + rng.randint(1, 2)
         studs = [s for s in range(1, S + 1)
                  if any(proj_lec[p - 1] == k for g in first[s - 1] for p in g)]
+        if superfluous and two_sided_lists and rng.random() < 0.15:
+            # a second-side list may also mention first-side agents who do not apply there (the reader keeps their
+            # ranks unused); not produced by the generator, hence only in the importer's correspondence
+            others = [s for s in range(1, S + 1) if s not in studs]
+            if others:
+                studs = studs + rng.sample(others, rng.randint(1, len(others)))
         rng.shuffle(studs)
         groups = tie_groups(rng, studs, rng.choice([0.0, 0.3, 0.6, 1.0])) if two_sided_lists else []
         lecturers.append([lq, tg, uq, groups])
